@@ -188,6 +188,10 @@ def worker(case: Dict[str, Any]) -> CaseResult:
         (root / "csm.py").write_text(csm)
         cfg_full["files_to_include"] = [str(root / "csm.py")]
         cfg = write_case(root, sdl, queries, cfg_full)
+        if case["idx"] % 3 == 0:
+            # something was generated in this interpreter before: the same inputs with nothing configured
+            from ..genpkg import decoy_generations
+            stats["decoy_generations_before"] = decoy_generations(root, sdl, queries)
         with warnings.catch_warnings():
             warnings.simplefilter("ignore")
             gen = run_cli(root, "client", cfg)
